@@ -1,6 +1,8 @@
 """C18 — rebuilt text is in the formatter's spacing normal form."""
 
-from vf import cst, oracles
+import random
+
+from vf import cst, nima, oracles
 from vf.gen import trivia as T
 from vf.props import rt_common as RT
 
@@ -86,8 +88,51 @@ def edit_outputs(sh, examples):
         sh.record(case, info.get("ok_steps", 0) >= 1, ["edit-history", f"oksteps:{min(info.get('ok_steps', 0), 5)}"])
         for sig, d in bad[:1]:
             sh.fail(sig, case, d)
+        # the same through the mapping API: delete 1-3 leaves below the top level (an emptied attrpath node stays visible)
+        mcase = mapping_deletes(text, random.Random(n))
+        if mcase is not None:
+            fl = replay(mcase)
+            sh.record(mcase, True, ["mapping-deletes"])
+            for k, d in fl[:1]:
+                sh.fail(k, mcase, d)
 
     prop()
+
+
+def mapping_deletes(text, r):
+    from vf.model import attrs as A
+    from vf.model import names as N
+    from vf.props import edit_common as E
+
+    view = A.View(text)
+    if not view.valid or view.core is None or "alias" in view.kinds:
+        return None
+    paths = [p for p, e in E.all_paths(view.core["set"]) if len(p) >= 2 and not A.is_set(e)]
+    if not paths:
+        return None
+    chosen = r.sample(paths, min(len(paths), r.randint(1, 3)))
+    return {"doc": text, "mapping_del": [[N.encode_segment(x) for x in p] for p in chosen]}
+
+
+def _mapping_run(case):
+    src = nima.parse(case["doc"])
+    done = 0
+    for path in case["mapping_del"]:
+        try:
+            obj = src
+            for k in path[:-1]:
+                obj = obj[k]
+            del obj[path[-1]]
+            done += 1
+        except Exception:  # noqa: BLE001 - refusals are C14's business
+            continue
+    if not done:
+        return []
+    out = src.rebuild()
+    tree = cst.parse(out)
+    if not cst.env_ok(out) or tree.root.has_error:
+        return []
+    return [(f"mapping-output:{k}", dict(d, out=out[:400])) for k, d in oracles.c18(tree)[:1]]
 
 
 def run_shard(sh):
@@ -96,6 +141,8 @@ def run_shard(sh):
 
 
 def replay(case):
+    if "mapping_del" in case:
+        return _mapping_run(case)
     if "ops" in case:
         from vf.props import c05
 
